@@ -1620,6 +1620,110 @@ def unroll_literal_tables(index):
     return done
 
 
+# ---- local names for attributes of the instance -----------------------------------------------------------------------------------
+def inline_attribute_aliases(index):
+    """`x = self.a.b` at the top level of a method body, `x` bound nowhere else, and neither `self.a` nor `self.a.b` rebound in the
+    function (nor `self.a` anywhere in the class outside `__init__`): `x` is another spelling of `self.a.b`.  Every read of `x`
+    becomes the attribute chain and the assignment disappears.  (Mutating the object the chain names is not rebinding it.)"""
+    import copy
+    done = {}
+
+    def chain(e):
+        parts = []
+        while isinstance(e, ast.Attribute):
+            parts.append(e.attr)
+            e = e.value
+        if isinstance(e, ast.Name) and e.id == "self" and parts:
+            return tuple(reversed(parts))
+        return None
+    for m in index.modules.values():
+        for cls in m.all_classes():
+            methods = [f for fs in cls.methods.values() for f in fs]
+            rebound = set()                              # first attributes assigned outside __init__
+            for f in methods:
+                if f.name == "__init__":
+                    continue
+                for n in ast.walk(f.node):
+                    if isinstance(n, ast.Attribute) and isinstance(n.ctx, (ast.Store, ast.Del)) and isinstance(n.value, ast.Name) and n.value.id == "self":
+                        rebound.add(n.attr)
+            for f in methods:
+                if f.name in ("__init__", "__new__") or not f.params or f.params[0] != "self":
+                    continue
+                k = 0
+                for st in list(f.node.body):
+                    if not (isinstance(st, ast.Assign) and len(st.targets) == 1 and isinstance(st.targets[0], ast.Name)):
+                        continue
+                    ch = chain(st.value)
+                    if ch is None or ch[0] in rebound or cls.method(ch[-1]) is not None and len(ch) == 1 and "property" not in cls.method(ch[-1]).decorators:
+                        continue
+                    name = st.targets[0].id
+                    if name in f.params:
+                        continue
+                    stores = [n for n in ast.walk(f.node) if isinstance(n, ast.Name) and n.id == name and isinstance(n.ctx, (ast.Store, ast.Del))]
+                    if len(stores) != 1 or any(isinstance(n, (ast.Global, ast.Nonlocal)) and name in n.names for n in ast.walk(f.node)):
+                        continue
+                    if any(isinstance(n, ast.arg) and n.arg == name for n in ast.walk(f.node)):
+                        continue
+                    # no prefix of the chain is rebound in this function
+                    bad = False
+                    for n in ast.walk(f.node):
+                        if isinstance(n, ast.Attribute) and isinstance(n.ctx, (ast.Store, ast.Del)):
+                            c2 = chain(n)
+                            if c2 is not None and ch[:len(c2)] == c2:
+                                bad = True
+                    # every read comes after the binding (textually, at or below the top level)
+                    loads = [n for n in ast.walk(f.node) if isinstance(n, ast.Name) and n.id == name and isinstance(n.ctx, ast.Load)]
+                    if bad or not loads or any((n.lineno, n.col_offset) < (st.lineno, st.col_offset) for n in loads):
+                        continue
+
+                    class R(ast.NodeTransformer):
+                        def visit_Name(self, n):
+                            if n.id == name and isinstance(n.ctx, ast.Load):
+                                return ast.copy_location(copy.deepcopy(st.value), n)
+                            return n
+                    f.node.body.remove(st)
+                    for i_, s2 in enumerate(f.node.body):
+                        f.node.body[i_] = R().visit(s2)
+                    k += 1
+                if k:
+                    if not f.node.body:
+                        f.node.body.append(ast.Pass())
+                    ast.fix_missing_locations(f.node)
+                    done[f.site] = k
+    return done
+
+
+# ---- loop items unpacked in the body -----------------------------------------------------------------------------------------------
+def fold_loop_unpacking(index):
+    """`for item in X:` whose first statement is `a, (b, c) = item` and which uses `item` nowhere else is `for a, (b, c) in X:`
+    (a name may serve several such loops, nested or in sequence, as long as it serves nothing else)."""
+    done = {}
+    for f in index.all_functions():
+        inst = []
+        for loop in [n for n in ast.walk(f.node) if isinstance(n, (ast.For, ast.AsyncFor))]:
+            if not isinstance(loop.target, ast.Name) or len(loop.body) < 2:
+                continue
+            st = loop.body[0]
+            if isinstance(st, ast.Assign) and len(st.targets) == 1 and isinstance(st.targets[0], (ast.Tuple, ast.List)) and \
+                    isinstance(st.value, ast.Name) and st.value.id == loop.target.id:
+                inst.append((loop, st))
+        if not inst:
+            continue
+        own = {id(l.target) for l, st in inst} | {id(st.value) for l, st in inst}
+        spoiled = {n.id for n in ast.walk(f.node) if isinstance(n, ast.Name) and id(n) not in own}
+        k = 0
+        for loop, st in inst:
+            if loop.target.id in spoiled:
+                continue
+            loop.target = st.targets[0]
+            del loop.body[0]
+            k += 1
+        if k:
+            ast.fix_missing_locations(f.node)
+            done[f.site] = k
+    return done
+
+
 # ---- lazily filled instance memos ------------------------------------------------------------------------------------------------
 def inline_lazy_attr_memos(index):
     """`self._m = None` in __init__; in one method `if self._m is None: self._m = E` (E possibly chosen by nested ifs) and then reads of
